@@ -708,8 +708,11 @@ func (s *Netceptor) RemoveLocalServiceAdvertisement(service string) error {
 	s.serviceAdsLock.Lock()
 	defer s.serviceAdsLock.Unlock()
 	n, ok := s.serviceAdsReceived[s.nodeID]
-	connType := n[service].ConnType
+	var connType byte
 	if ok {
+		if sa, exists := n[service]; exists {
+			connType = sa.ConnType
+		}
 		delete(n, service)
 	}
 	sa := &serviceAdvertisementFull{
